@@ -564,7 +564,7 @@ end ltable
 /-! ### the long group key -/
 
 def keyPresent (fn k : String) : Bool :=
-  match Generated.Frame.groupByKeys.find? (·.1 == fn) with
+  match Generated.FrameKeys.groupByKeys.find? (·.1 == fn) with
   | some (_, ks) => ks.contains k
   | none => false
 
